@@ -1,3 +1,525 @@
+/-
+  C11 — helper lemmas (loop invariants of bsearch, of the qsort partition and
+  recursion, of the strto* digit loop).  Property theorems are in Props.lean.
+-/
 import IgrisModel.C11.Model
 namespace Igris.C11
+
+/-! ## bsearch -/
+
+section
+variable {κ α : Type}
+
+theorem bsLoop_spec (cmp : κ → α → Int) (key : κ) (a : List α) (hp : PartitionedBy cmp key a) :
+    ∀ (fuel left right : Nat), left < right → right ≤ a.length → right - left ≤ fuel →
+    (∀ k (hk : k < a.length), right ≤ k → cmp key a[k] < 0) →
+    (left = 0 ∨ ∃ h : left < a.length, 0 ≤ cmp key a[left]) →
+    ∃ l, ∃ h : l < a.length, bsLoop cmp key a fuel left right = some (l, l + 1) ∧
+      (∀ k (hk : k < a.length), l + 1 ≤ k → cmp key a[k] < 0) ∧ (l = 0 ∨ 0 ≤ cmp key a[l]) := by
+  intro fuel
+  induction fuel with
+  | zero => intro left right h1 h2 h3; omega
+  | succ f ih =>
+    intro left right hlr hr hf hR hL
+    unfold bsLoop
+    by_cases hc : left + 1 < right
+    · simp only [hc, if_true]
+      have hm1 : left < left + (right - left) / 2 := by omega
+      have hm2 : left + (right - left) / 2 < right := by omega
+      have hm : left + (right - left) / 2 < a.length := by omega
+      rw [List.getElem?_eq_getElem hm]
+      simp only
+      by_cases hk : cmp key a[left + (right - left) / 2] < 0
+      · simp only [hk, if_true]
+        apply ih _ _ hm1 (by omega) (by omega) _ hL
+        intro k hk' hge
+        exact ((hp _ k hge hk').1 hk)
+      · simp only [hk, if_false]
+        apply ih _ _ hm2 hr (by omega) hR
+        right
+        exact ⟨hm, by omega⟩
+    · simp only [hc, if_false]
+      have : right = left + 1 := by omega
+      subst this
+      refine ⟨left, by omega, rfl, hR, ?_⟩
+      rcases hL with h | ⟨h, h'⟩
+      · left; exact h
+      · right; exact h'
+
+theorem bsearch_spec (cmp : κ → α → Int) (key : κ) (a : List α) (hp : PartitionedBy cmp key a) :
+    ∃ r, bsearch cmp key a = some r ∧
+      (∀ i, r = some i → ∃ h : i < a.length, cmp key a[i] = 0) ∧
+      (r = none → ∀ i (h : i < a.length), cmp key a[i] ≠ 0) := by
+  unfold bsearch
+  by_cases h0 : a.length = 0
+  · simp only [h0, if_true]
+    refine ⟨none, rfl, ?_, ?_⟩
+    · intro i hi; cases hi
+    · intro _ i h; omega
+  · simp only [h0, if_false]
+    obtain ⟨l, hl, hrun, hR, hL⟩ := bsLoop_spec cmp key a hp (a.length + 1) 0 a.length (by omega) (by omega) (by omega)
+      (by intro k hk hge; omega) (Or.inl rfl)
+    rw [hrun]
+    simp only [List.getElem?_eq_getElem hl]
+    by_cases he : cmp key a[l] = 0
+    · simp only [he, if_true]
+      refine ⟨some l, rfl, ?_, ?_⟩
+      · intro i hi
+        cases hi
+        exact ⟨hl, he⟩
+      · intro h; cases h
+    · simp only [he, if_false]
+      refine ⟨none, rfl, ?_, ?_⟩
+      · intro i hi; cases hi
+      intro _ p hpl hp0
+      have hpl' : p ≤ l := by
+        apply Classical.byContradiction
+        intro hn
+        have := hR p hpl (by omega)
+        omega
+      by_cases hpe : p = l
+      · subst hpe; exact he hp0
+      · rcases hL with h | h
+        · omega
+        · have := (hp p l hpl' hl).2 (by omega)
+          omega
+end
+
+/-! ## qsort -/
+
+section
+variable {α : Type} (cmp : α → α → Int) (key : α)
+
+theorem scanUp_spec (a : List α) : ∀ (fuel i u : Nat) (xu : α), a[u]? = some xu → ¬ cmp xu key < 0 →
+    i ≤ u → u - i < fuel →
+    ∃ i' xi, scanUp cmp key a fuel i = some i' ∧ i ≤ i' ∧ i' ≤ u ∧ a[i']? = some xi ∧ ¬ cmp xi key < 0 ∧
+      ∀ k x, i ≤ k → k < i' → a[k]? = some x → cmp x key < 0 := by
+  intro fuel
+  induction fuel with
+  | zero => intro i u xu _ _ _ h; omega
+  | succ f ih =>
+    intro i u xu hu hxu hiu hf
+    have hul : u < a.length := by
+      rcases Nat.lt_or_ge u a.length with h | h
+      · exact h
+      · rw [List.getElem?_eq_none h] at hu; cases hu
+    have hil : i < a.length := by omega
+    unfold scanUp
+    rw [List.getElem?_eq_getElem hil]
+    simp only
+    by_cases hc : cmp a[i] key < 0
+    · simp only [hc, if_true]
+      have hne : i ≠ u := by
+        intro h; subst h
+        rw [List.getElem?_eq_getElem hil] at hu
+        cases hu; exact hxu hc
+      obtain ⟨i', xi, h1, h2, h3, h4, h5, h6⟩ := ih (i + 1) u xu hu hxu (by omega) (by omega)
+      refine ⟨i', xi, h1, by omega, h3, h4, h5, ?_⟩
+      intro k x hk1 hk2 hk3
+      by_cases hki : k = i
+      · subst hki
+        rw [List.getElem?_eq_getElem hil] at hk3
+        cases hk3; exact hc
+      · exact h6 k x (by omega) hk2 hk3
+    · simp only [hc, if_false]
+      refine ⟨i, a[i], rfl, by omega, hiu, List.getElem?_eq_getElem hil, hc, ?_⟩
+      intro k x h1 h2; omega
+
+theorem scanDown_spec (a : List α) : ∀ (fuel : Nat) (j : Int) (d : Nat) (xd : α), a[d]? = some xd → ¬ cmp key xd < 0 →
+    (d : Int) ≤ j → j < a.length → (j - d).toNat < fuel →
+    ∃ (j' : Nat) (xj : α), scanDown cmp key a fuel j = some (j' : Int) ∧ d ≤ j' ∧ (j' : Int) ≤ j ∧ a[j']? = some xj ∧ ¬ cmp key xj < 0 ∧
+      ∀ (k : Nat) x, j' < k → (k : Int) ≤ j → a[k]? = some x → cmp key x < 0 := by
+  intro fuel
+  induction fuel with
+  | zero => intro j d xd _ _ _ _ h; omega
+  | succ f ih =>
+    intro j d xd hd hxd hdj hjl hf
+    have hj0 : ¬ j < 0 := by omega
+    have hjl' : j.toNat < a.length := by omega
+    unfold scanDown
+    simp only [hj0, if_false]
+    rw [List.getElem?_eq_getElem hjl']
+    simp only
+    by_cases hc : cmp key a[j.toNat] < 0
+    · simp only [hc, if_true]
+      have hne : j.toNat ≠ d := by
+        intro h
+        have : a[j.toNat]? = some xd := by rw [h]; exact hd
+        rw [List.getElem?_eq_getElem hjl'] at this
+        cases this; exact hxd hc
+      obtain ⟨j', xj, h1, h2, h3, h4, h5, h6⟩ := ih (j - 1) d xd hd hxd (by omega) (by omega) (by omega)
+      refine ⟨j', xj, h1, h2, by omega, h4, h5, ?_⟩
+      intro k x hk1 hk2 hk3
+      by_cases hkj : k = j.toNat
+      · subst hkj
+        rw [List.getElem?_eq_getElem hjl'] at hk3
+        cases hk3; exact hc
+      · exact h6 k x hk1 (by omega) hk3
+    · simp only [hc, if_false]
+      refine ⟨j.toNat, a[j.toNat], by simp [Int.toNat_of_nonneg (by omega : 0 ≤ j)], by omega, by omega, List.getElem?_eq_getElem hjl', hc, ?_⟩
+      intro k x h1 h2; omega
+theorem swapAt_spec (a : List α) (i j : Nat) (x y : α) (hi : a[i]? = some x) (hj : a[j]? = some y) :
+    swapAt a i j = some ((a.set i y).set j x) ∧ ((a.set i y).set j x).Perm a := by
+  have hil : i < a.length := by
+    rcases Nat.lt_or_ge i a.length with h | h
+    · exact h
+    · rw [List.getElem?_eq_none h] at hi; cases hi
+  have hjl : j < a.length := by
+    rcases Nat.lt_or_ge j a.length with h | h
+    · exact h
+    · rw [List.getElem?_eq_none h] at hj; cases hj
+  rw [List.getElem?_eq_getElem hil] at hi
+  rw [List.getElem?_eq_getElem hjl] at hj
+  cases hi; cases hj
+  unfold swapAt
+  simp only [hil, hjl, and_self, dite_true]
+  exact ⟨trivial, List.set_set_perm hil hjl⟩
+
+theorem swap_get (a : List α) (i j k : Nat) (x y : α) (hi : i < a.length) (hj : j < a.length) :
+    ((a.set i y).set j x)[k]? = if k = j then some x else if k = i then some y else a[k]? := by
+  simp only [List.getElem?_set, List.length_set]
+  by_cases h1 : j = k
+  · subst h1; simp [hj]
+  · by_cases h2 : i = k
+    · subst h2; simp [hi, h1]; intro h; omega
+    · simp [h1, h2]
+      have : ¬ k = j := fun h => h1 h.symm
+      have : ¬ k = i := fun h => h2 h.symm
+      simp [*]
+
+/-- invariant of the `while (i <= j)` loop of the partition -/
+structure PInv (a0 a : List α) (i : Nat) (j : Int) : Prop where
+  perm : a.Perm a0
+  jlo : -1 ≤ j
+  jhi : j < a.length
+  L : ∀ k x, k < i → a[k]? = some x → (cmp x key < 0 ∨ ¬ cmp key x < 0)
+  R : ∀ (k : Nat) x, j < (k : Int) → a[k]? = some x → (cmp key x < 0 ∨ ¬ cmp x key < 0)
+  S : (i = 0 ∧ j = (a.length : Int) - 1 ∧ ∃ (p : Nat) (x : α), a[p]? = some x ∧ ¬ cmp x key < 0 ∧ ¬ cmp key x < 0) ∨
+      (1 ≤ i ∧ j + 2 ≤ a.length ∧ (∃ x, a[(j + 1).toNat]? = some x ∧ ¬ cmp x key < 0) ∧
+        (∃ x, a[i - 1]? = some x ∧ ¬ cmp key x < 0))
+
+/-- what the partition establishes -/
+structure PPost (a0 a : List α) (i : Nat) (j : Int) : Prop where
+  perm : a.Perm a0
+  jlo : -1 ≤ j
+  ilo : 1 ≤ i
+  jhi : j + 2 ≤ a.length
+  ji : j < (i : Int)
+  L : ∀ k x, k < i → a[k]? = some x → (cmp x key < 0 ∨ ¬ cmp key x < 0)
+  R : ∀ (k : Nat) x, j < (k : Int) → a[k]? = some x → (cmp key x < 0 ∨ ¬ cmp x key < 0)
+
+theorem getElem?_some_lt {a : List α} {k : Nat} {x : α} (h : a[k]? = some x) : k < a.length := by
+  rcases Nat.lt_or_ge k a.length with h' | h'
+  · exact h'
+  · rw [List.getElem?_eq_none h'] at h; cases h
+
+theorem partLoop_spec (a0 : List α) : ∀ (fuel : Nat) (a : List α) (i : Nat) (j : Int),
+    PInv cmp key a0 a i j → (j + 2 - i).toNat < fuel →
+    ∃ a' i' j', partLoop cmp key fuel a i j = some (a', i', j') ∧ PPost cmp key a0 a' i' j' := by
+  intro fuel
+  induction fuel with
+  | zero => intro a i j _ h; omega
+  | succ f ih =>
+    intro a i j inv hf
+    unfold partLoop
+    by_cases hij : (i : Int) ≤ j
+    · simp only [hij, if_true]
+      -- sentinels
+      have hS : ∃ (u d : Nat) (xu xd : α), a[u]? = some xu ∧ ¬ cmp xu key < 0 ∧ i ≤ u ∧ a[d]? = some xd ∧ ¬ cmp key xd < 0 ∧ (d : Int) ≤ j ∧
+          ((i = 0 ∧ u = d) ∨ (1 ≤ i ∧ j + 2 ≤ a.length ∧ (u : Int) = j + 1 ∧ d = i - 1)) := by
+        rcases inv.S with ⟨h1, h2, p, x, hp, hx1, hx2⟩ | ⟨h1, h2, ⟨x, hx, hx'⟩, ⟨y, hy, hy'⟩⟩
+        · have := getElem?_some_lt hp
+          exact ⟨p, p, x, x, hp, hx1, by omega, hp, hx2, by omega, Or.inl ⟨h1, rfl⟩⟩
+        · exact ⟨(j + 1).toNat, i - 1, x, y, hx, hx', by omega, hy, hy', by omega, Or.inr ⟨h1, h2, by omega, rfl⟩⟩
+      obtain ⟨u, d, xu, xd, hu, hxu, hiu, hd, hxd, hdj, hph⟩ := hS
+      have hul := getElem?_some_lt hu
+      obtain ⟨i', xi, hsu, hi1, hi2, hxi, hxi', hup⟩ := scanUp_spec cmp key a (a.length + 1) i u xu hu hxu hiu (by omega)
+      have hjhi := inv.jhi
+      obtain ⟨j', xj, hsd, hj1, hj2, hxj, hxj', hdn⟩ := scanDown_spec cmp key a (a.length + 1) j d xd hd hxd hdj inv.jhi (by omega)
+      rw [hsu]; simp only
+      rw [hsd]; simp only
+      have hi'l := getElem?_some_lt hxi
+      have hj'l := getElem?_some_lt hxj
+      by_cases hc : (i' : Int) ≤ (j' : Int)
+      · simp only [hc, if_true, Int.toNat_natCast]
+        obtain ⟨hsw, hperm⟩ := swapAt_spec a i' j' xi xj hxi hxj
+        rw [hsw]; simp only
+        have hc' : i' ≤ j' := by omega
+        apply ih
+        · constructor
+          · exact hperm.trans inv.perm
+          · omega
+          · simp only [List.length_set]; omega
+          · intro k x hk hkx
+            rw [swap_get a i' j' k xi xj hi'l hj'l] at hkx
+            by_cases h1 : k = j'
+            · have : k = i' := by omega
+              subst h1
+              simp only [if_true] at hkx
+              cases hkx
+              have : xi = xj := by rw [this] at hxj; rw [hxi] at hxj; cases hxj; rfl
+              right; rw [this]; exact hxj'
+            · simp only [h1, if_false] at hkx
+              by_cases h2 : k = i'
+              · simp only [h2, if_true] at hkx; cases hkx; right; exact hxj'
+              · simp only [h2, if_false] at hkx
+                by_cases h3 : k < i
+                · exact inv.L k x h3 hkx
+                · left; exact hup k x (by omega) (by omega) hkx
+          · intro k x hk hkx
+            rw [swap_get a i' j' k xi xj hi'l hj'l] at hkx
+            by_cases h1 : k = j'
+            · simp only [h1, if_true] at hkx; cases hkx; right; exact hxi'
+            · simp only [h1, if_false] at hkx
+              by_cases h2 : k = i'
+              · omega
+              · simp only [h2, if_false] at hkx
+                by_cases h3 : j < (k : Int)
+                · exact inv.R k x h3 hkx
+                · left; exact hdn k x (by omega) (by omega) hkx
+          · right
+            simp only [List.length_set]
+            refine ⟨by omega, by omega, ⟨xi, ?_, hxi'⟩, ?_⟩
+            · have : ((j' : Int) - 1 + 1).toNat = j' := by omega
+              rw [this, swap_get a i' j' j' xi xj hi'l hj'l]; simp
+            · have : i' + 1 - 1 = i' := by omega
+              rw [this, swap_get a i' j' i' xi xj hi'l hj'l]
+              by_cases h : i' = j'
+              · simp only [h, if_true]
+                have : xi = xj := by rw [h] at hxi; rw [hxi] at hxj; cases hxj; rfl
+                exact ⟨xi, rfl, by rw [this]; exact hxj'⟩
+              · simp only [h, if_false, if_true]
+                exact ⟨xj, rfl, hxj'⟩
+        · omega
+      · simp only [hc, if_false]
+        -- the next test `i <= j` fails and the loop ends
+        have hnot1 : ¬ (i = 0 ∧ u = d) := by
+          rintro ⟨_, h⟩; subst h; omega
+        have hph2 : 1 ≤ i ∧ j + 2 ≤ a.length := by
+          rcases hph with h | ⟨h1, h2, _, _⟩
+          · exact absurd h hnot1
+          · exact ⟨h1, h2⟩
+        have hf1 : ∃ f', f = f' + 1 := ⟨f - 1, by omega⟩
+        obtain ⟨f', rfl⟩ := hf1
+        unfold partLoop
+        simp only [hc, if_false]
+        refine ⟨a, i', j', rfl, ?_⟩
+        constructor
+        · exact inv.perm
+        · omega
+        · omega
+        · omega
+        · omega
+        · intro k x hk hkx
+          by_cases h3 : k < i
+          · exact inv.L k x h3 hkx
+          · left; exact hup k x (by omega) (by omega) hkx
+        · intro k x hk hkx
+          by_cases h3 : j < (k : Int)
+          · exact inv.R k x h3 hkx
+          · left; exact hdn k x (by omega) (by omega) hkx
+    · simp only [hij, if_false]
+      refine ⟨a, i, j, rfl, ?_⟩
+      have hph2 : 1 ≤ i ∧ j + 2 ≤ a.length := by
+        rcases inv.S with ⟨h1, h2, p, x, hp, _, _⟩ | ⟨h1, h2, _, _⟩
+        · have := getElem?_some_lt hp; omega
+        · exact ⟨h1, h2⟩
+      exact ⟨inv.perm, inv.jlo, hph2.1, hph2.2, by omega, inv.L, inv.R⟩
+theorem mem_take_getElem? {l : List α} {n : Nat} {x : α} (h : x ∈ l.take n) : ∃ k, k < n ∧ l[k]? = some x := by
+  obtain ⟨k, hk⟩ := List.mem_iff_getElem?.1 h
+  rw [List.getElem?_take] at hk
+  by_cases hkn : k < n
+  · simp only [hkn, if_true] at hk; exact ⟨k, hkn, hk⟩
+  · simp only [hkn, if_false] at hk; cases hk
+
+theorem mem_drop_getElem? {l : List α} {n : Nat} {x : α} (h : x ∈ l.drop n) : ∃ k, n ≤ k ∧ l[k]? = some x := by
+  obtain ⟨k, hk⟩ := List.mem_iff_getElem?.1 h
+  rw [List.getElem?_drop] at hk
+  exact ⟨n + k, by omega, hk⟩
+
+theorem sorted_short (l : List α) (h : l.length ≤ 1) : Sorted cmp l := by
+  match l, h with
+  | [], _ => exact List.Pairwise.nil
+  | [x], _ => exact List.pairwise_singleton _ _
+  | _ :: _ :: _, h => simp at h
+
+theorem smallSort_perm (a : List α) : (smallSort cmp a).Perm a := by
+  unfold smallSort
+  split
+  · split
+    · exact List.Perm.swap _ _ _
+    · exact List.Perm.refl _
+  · rename_i x y z
+    by_cases h1 : cmp y x < 0 <;> by_cases h2 : cmp z x < 0 <;> by_cases h3 : cmp z y < 0 <;> simp only [h1, h2, h3, if_true, if_false]
+    all_goals first
+      | exact List.Perm.refl _
+      | exact List.Perm.swap _ _ _
+      | exact (List.Perm.swap _ _ _).trans (List.Perm.cons _ (List.Perm.swap _ _ _))
+      | exact List.Perm.cons _ (List.Perm.swap _ _ _)
+      | exact ((List.Perm.cons _ (List.Perm.swap _ _ _)).trans (List.Perm.swap _ _ _))
+      | exact (List.Perm.swap _ _ _).trans ((List.Perm.cons _ (List.Perm.swap _ _ _)).trans (List.Perm.swap _ _ _))
+  · exact List.Perm.refl _
+
+theorem Consistent.le_of_not_lt {cmp : α → α → Int} (hc : Consistent cmp) {p q : α} (h : ¬ cmp q p < 0) : cmp p q ≤ 0 := by
+  have := hc.anti q p
+  omega
+
+theorem Consistent.irrefl {cmp : α → α → Int} (hc : Consistent cmp) (x : α) : ¬ cmp x x < 0 := by
+  have := hc.anti x x
+  omega
+
+theorem smallSort_sorted (hc : Consistent cmp) (a : List α) (h : a.length < 4) : Sorted cmp (smallSort cmp a) := by
+  match a, h with
+  | [], _ => exact List.Pairwise.nil
+  | [x], _ => exact List.pairwise_singleton _ _
+  | [x, y], _ =>
+    simp only [smallSort]
+    by_cases h1 : cmp y x < 0 <;> simp only [h1, if_true, if_false, Sorted, List.pairwise_cons, List.mem_cons, forall_eq_or_imp, List.not_mem_nil, false_imp_iff, implies_true, List.Pairwise.nil, and_true]
+    · omega
+    · exact hc.le_of_not_lt h1
+  | [x, y, z], _ =>
+    simp only [smallSort]
+    have e1 := @Consistent.le_of_not_lt _ _ hc x y
+    have e2 := @Consistent.le_of_not_lt _ _ hc x z
+    have e3 := @Consistent.le_of_not_lt _ _ hc y z
+    by_cases h1 : cmp y x < 0 <;> by_cases h2 : cmp z x < 0 <;> by_cases h3 : cmp z y < 0 <;>
+      simp only [h1, h2, h3, if_true, if_false, Sorted, List.pairwise_cons, List.mem_cons, forall_eq_or_imp, List.not_mem_nil, false_imp_iff, implies_true, List.Pairwise.nil, and_true]
+    all_goals (have t1 := hc.trans y x z; have t2 := hc.trans x y z; omega)
+  | _ :: _ :: _ :: _ :: _, h => simp only [List.length_cons] at h; omega
+
+theorem sorted_append3 (hc : Consistent cmp) (A M B : List α)
+    (hA : ∀ x ∈ A, cmp x key ≤ 0) (hM : ∀ x ∈ M, cmp x key ≤ 0 ∧ cmp key x ≤ 0) (hB : ∀ x ∈ B, cmp key x ≤ 0)
+    (sA : Sorted cmp A) (sB : Sorted cmp B) : Sorted cmp (A ++ (M ++ B)) := by
+  unfold Sorted at *
+  rw [List.pairwise_append, List.pairwise_append]
+  refine ⟨sA, ⟨?_, sB, ?_⟩, ?_⟩
+  · apply List.pairwise_of_forall_mem_list
+    intro x hx y hy
+    exact hc.trans x key y (hM x hx).1 (hM y hy).2
+  · intro x hx y hy
+    exact hc.trans x key y (hM x hx).1 (hB y hy)
+  · intro x hx y hy
+    rcases List.mem_append.1 hy with h | h
+    · exact hc.trans x key y (hA x hx) (hM y h).2
+    · exact hc.trans x key y (hA x hx) (hB y h)
+
+theorem pivotIndex_lt (r : Int) (n : Nat) (h : 0 < n) : pivotIndex r n < n := Nat.mod_lt _ h
+
+theorem qsortF_spec (hirr : ∀ x, ¬ cmp x x < 0) : ∀ (fuel : Nat) (rs : List Int) (a : List α), a.length < fuel →
+    ∃ out rs', qsortF cmp fuel rs a = some (out, rs') ∧ out.Perm a ∧ (Consistent cmp → Sorted cmp out) := by
+  intro fuel
+  induction fuel with
+  | zero => intro rs a h; omega
+  | succ f ih =>
+    intro rs a hlen
+    unfold qsortF
+    by_cases h4 : a.length < 4
+    · simp only [h4, if_true]
+      exact ⟨_, _, rfl, smallSort_perm cmp a, fun hc => smallSort_sorted cmp hc a h4⟩
+    · simp only [h4, if_false]
+      have hp := pivotIndex_lt (nextRand rs).1 a.length (by omega)
+      generalize (nextRand rs).2 = rs1
+      generalize pivotIndex (nextRand rs).1 a.length = p at hp
+      rw [List.getElem?_eq_getElem hp]
+      simp only
+      generalize hkey : a[p] = key
+      have hkp : a[p]? = some key := by rw [List.getElem?_eq_getElem hp, hkey]
+      -- the partition
+      have inv : PInv cmp key a a 0 ((a.length : Int) - 1) := by
+        constructor
+        · exact List.Perm.refl _
+        · omega
+        · omega
+        · intro k x hk; omega
+        · intro k x hk hkx
+          have := getElem?_some_lt hkx; omega
+        · left; exact ⟨rfl, rfl, p, key, hkp, hirr key, hirr key⟩
+      obtain ⟨a1, i, j, hpl, post⟩ := partLoop_spec cmp key a (a.length + 2) a 0 ((a.length : Int) - 1) inv (by omega)
+      rw [hpl]
+      simp only
+      have hlen1 : a1.length = a.length := post.perm.length_eq
+      have hjlo := post.jlo
+      have hilo := post.ilo
+      have hjhi := post.jhi
+      have hji := post.ji
+      -- order facts (only meaningful for a consistent comparator)
+      have hLE : Consistent cmp → ∀ k x, k < i → a1[k]? = some x → cmp x key ≤ 0 := by
+        intro hc k x hk hkx
+        rcases post.L k x hk hkx with h | h
+        · omega
+        · exact hc.le_of_not_lt h
+      have hGE : Consistent cmp → ∀ x ∈ a1.drop (j + 1).toNat, cmp key x ≤ 0 := by
+        intro hc x hx
+        obtain ⟨k, hk, hkx⟩ := mem_drop_getElem? hx
+        rcases post.R k x (by omega) hkx with h | h
+        · omega
+        · exact hc.le_of_not_lt h
+      generalize hjn : (j + 1).toNat = jn at hGE
+      have hjni : jn ≤ i := by omega
+      have hjnl : jn + 1 ≤ a.length := by omega
+      -- left recursion
+      have hleft : ∃ lft rs2, lft.Perm (a1.take jn) ∧ (Consistent cmp → Sorted cmp lft) ∧
+          (if j > 0 then
+              (qsortF cmp f rs1 (a1.take (j.toNat + 1))).map fun (s, rs) => (s ++ a1.drop (j.toNat + 1), rs)
+            else some (a1, rs1)) = some (lft ++ a1.drop jn, rs2) := by
+        by_cases hj0 : j > 0
+        · simp only [hj0, if_true]
+          have e : j.toNat + 1 = jn := by omega
+          rw [e]
+          obtain ⟨s, rs2, hs, hsp, hss⟩ := ih rs1 (a1.take jn) (by rw [List.length_take]; omega)
+          exact ⟨s, rs2, hsp, hss, by rw [hs]; rfl⟩
+        · simp only [hj0, if_false]
+          refine ⟨a1.take jn, rs1, List.Perm.refl _, fun _ => sorted_short cmp _ (by rw [List.length_take]; omega), ?_⟩
+          rw [List.take_append_drop]
+      obtain ⟨lft, rs2, hlp, hls, hleq⟩ := hleft
+      rw [hleq]
+      simp only
+      have hlftlen : lft.length = jn := by rw [hlp.length_eq, List.length_take]; omega
+      -- right recursion
+      have htake : (lft ++ a1.drop jn).take i = lft ++ (a1.drop jn).take (i - jn) := by
+        rw [List.take_append, List.take_of_length_le (by omega), hlftlen]
+      have hdrop : (lft ++ a1.drop jn).drop i = (a1.drop jn).drop (i - jn) := by
+        rw [List.drop_append, List.drop_of_length_le (by omega), hlftlen, List.nil_append]
+      have hlen2 : (lft ++ a1.drop jn).length = a.length := by
+        rw [List.length_append, hlftlen, List.length_drop]; omega
+      have hright : ∃ rgt rs3, rgt.Perm ((a1.drop jn).drop (i - jn)) ∧ (Consistent cmp → Sorted cmp rgt) ∧
+          (if i < a.length - 1 then
+              (qsortF cmp f rs2 ((lft ++ a1.drop jn).drop i)).map fun (s, rs) => ((lft ++ a1.drop jn).take i ++ s, rs)
+            else some (lft ++ a1.drop jn, rs2)) = some (lft ++ ((a1.drop jn).take (i - jn) ++ rgt), rs3) := by
+        by_cases hi0 : i < a.length - 1
+        · simp only [hi0, if_true]
+          rw [hdrop, htake]
+          obtain ⟨s, rs3, hs, hsp, hss⟩ := ih rs2 ((a1.drop jn).drop (i - jn)) (by simp only [List.length_drop]; omega)
+          exact ⟨s, rs3, hsp, hss, by rw [hs]; simp [List.append_assoc]⟩
+        · simp only [hi0, if_false]
+          refine ⟨(a1.drop jn).drop (i - jn), rs2, List.Perm.refl _, fun _ => sorted_short cmp _ (by simp only [List.length_drop]; omega), ?_⟩
+          rw [List.take_append_drop]
+      obtain ⟨rgt, rs3, hrp, hrs, hreq⟩ := hright
+      simp only at hreq ⊢
+      rw [hreq]
+      refine ⟨_, _, rfl, ?_, ?_⟩
+      · -- permutation
+        have h1 : (lft ++ ((a1.drop jn).take (i - jn) ++ rgt)).Perm (a1.take jn ++ ((a1.drop jn).take (i - jn) ++ (a1.drop jn).drop (i - jn))) :=
+          hlp.append ((List.Perm.refl _).append hrp)
+        rw [List.take_append_drop, List.take_append_drop] at h1
+        exact h1.trans post.perm
+      · intro hc
+        apply sorted_append3 cmp key hc
+        · intro x hx
+          have : x ∈ a1.take jn := hlp.mem_iff.1 hx
+          obtain ⟨k, hk, hkx⟩ := mem_take_getElem? this
+          exact hLE hc k x (by omega) hkx
+        · intro x hx
+          constructor
+          · obtain ⟨k, hk, hkx⟩ := mem_take_getElem? hx
+            rw [List.getElem?_drop] at hkx
+            exact hLE hc (jn + k) x (by omega) hkx
+          · exact hGE hc x (List.mem_of_mem_take hx)
+        · intro x hx
+          have : x ∈ (a1.drop jn).drop (i - jn) := hrp.mem_iff.1 hx
+          exact hGE hc x (List.mem_of_mem_drop this)
+        · exact hls hc
+        · exact hrs hc
+end
+
 end Igris.C11
